@@ -1655,6 +1655,33 @@ theorem config_dijkstra_decides (c : Config α) {du : DistanceUnit} (W : c.WellF
     obtain ⟨a, b, _⟩ := config_final_decides c W G hlim h6.isFinal
     exact ⟨h4, ext, h5, a, b⟩
 
+/-- **a deciding schedule exists, any weight factor** (general A\*, re-opening allowed): as
+`config_dijkstra_decides` with the bound `|walks| + 2` of `config_terminates_general` -/
+theorem config_search_decides (c : Config α) {du : DistanceUnit} (W : c.WellFormedDistance du)
+    {source t : Nat} (G : c.GraphOK source true)
+    (hlim : ∀ sz it, c.term.test sz it = .ok ()) {n : Nat} (hsrc : source < n)
+    (hV : c.VerticesBelow n) :
+    (∃ sched, sched.length ≤ (walks c.inst source n).length + 2 ∧
+      ((∃ r, c.runVertex source (some t) sched = .ok r) ∨
+        c.runVertex source (some t) sched = .error .noPath) ∧
+      ((∃ r, c.runVertex source (some t) sched = .ok r) ↔
+        ∃ es, SearchOpt.Walk c.inst c.okOf source es t)) ∧
+    ∀ pre, c.runVertex source (some t) pre = .error .scheduleExhausted →
+      pre.length ≤ (walks c.inst source n).length + 1 ∧
+      ∃ ext, (pre ++ ext).length ≤ (walks c.inst source n).length + 2 ∧
+        ((∃ r, c.runVertex source (some t) (pre ++ ext) = .ok r) ∨
+          c.runVertex source (some t) (pre ++ ext) = .error .noPath) ∧
+        ((∃ r, c.runVertex source (some t) (pre ++ ext) = .ok r) ↔
+          ∃ es, SearchOpt.Walk c.inst c.okOf source es t) := by
+  obtain ⟨⟨sched, h1, h2⟩, h3, _⟩ := config_terminates_general c G.adj hsrc hV (some t)
+  refine ⟨⟨sched, h1, ?_⟩, ?_⟩
+  · obtain ⟨a, b, _⟩ := config_final_decides c W G hlim h2.isFinal
+    exact ⟨a, b⟩
+  · intro pre hpre
+    obtain ⟨h4, ext, h5, h6⟩ := h3 pre hpre
+    obtain ⟨a, b, _⟩ := config_final_decides c W G hlim h6.isFinal
+    exact ⟨h4, ext, h5, a, b⟩
+
 /-- without a destination the loop never answers "no path" (when no component does) -/
 theorem runLoop_none_ne_noPath {I : Inst α} (hyg : SearchOpt.NoSpuriousNoPath I) {source : Nat} :
     ∀ (sched : List Nat) (s : SState α), runLoop I source none sched s ≠ .error .noPath := by
